@@ -295,6 +295,9 @@ var iterTypes = []string{"ArrayList", "SinglyLinkedList", "DoublyLinkedList", "T
 func buildCursor(c *core.Ctx, typ string, n int, exact bool) (mk func() *cursor) {
 	r := c.R
 	d := IntDom(40)
+	if n > 100 {
+		d = IntDom(4 * n)
+	}
 	churn := func(add func(v int), remove func(), size func() int) {
 		for size() < n {
 			add(d.Val(r))
@@ -504,10 +507,19 @@ func runCursorSweep(c *core.Ctx, typ string) {
 func runCursorRandom(c *core.Ctx, typ string) {
 	r := c.R
 	n := []int{0, 1, 2, 3, r.Range(4, 12), r.Range(4, 12), r.Range(13, 70)}[r.Intn(7)]
+	big := c.Index%151 == 29
+	if big {
+		n = r.Range(300, 1500) // deep trees, long lists, large rings
+		c.Count("obs:big-iterated-containers", 1)
+	}
 	mk := buildCursor(c, typ, n, false)
 	for round := 0; round < 3; round++ {
 		cu := mk()
 		steps := r.Range(40, 200)
+		if big {
+			steps = 60
+			cu.step("End", 0, 0)
+		}
 		for s := 0; s < steps; s++ {
 			cu.randomStep()
 			// direction reversal at the sentinels
